@@ -19,7 +19,7 @@ pub const FLOORS: &[&str] = &[
     "key:char", "key:multibyte2", "key:multibyte4", "key:backspace", "key:delete", "key:left",
     "key:right", "key:ctrl_left", "key:ctrl_right", "key:up", "key:down", "key:enter",
     "ctrl_right_with_multibyte_on_line", "edit_of_history_line", "submitted", "submitted_multi_command",
-    "blank_enter", "history:empty", "history:two_entries", "random_long",
+    "blank_enter", "history:empty", "history:two_entries", "random_long", "long_history", "long_line",
 ];
 
 #[derive(Clone, Copy, Debug, PartialEq)]
@@ -119,13 +119,13 @@ impl RefEdit {
         self.alt_cursor = None;
         match k {
             K::Enter => {
-                let blank_new = self.index >= self.history.len() && self.buffer.iter().all(|c| c.is_whitespace());
-                if blank_new {
+                // a blank line is never submitted, typed or recalled (a history can hold blank lines)
+                self.fork();
+                if self.buffer.iter().all(|c| c.is_whitespace()) {
                     self.buffer.clear();
                     self.cursor = 0;
                     return None;
                 }
-                self.fork();
                 return Some(self.buffer.iter().collect());
             }
             K::Ch(c) => {
@@ -585,7 +585,40 @@ fn random_case(seed: u64, i: u64, hs: &[Vec<String>]) -> CaseOut {
         let keys: Vec<K> = (0..len)
             .map(|_| if rng.chance(1, 6) { *rng.pick(extra) } else { *rng.pick(ALPHABET) })
             .collect();
-        let history = rng.pick(hs).clone();
+        let mut history = rng.pick(hs).clone();
+        let mut keys = keys;
+        match rng.below(8) {
+            0 => {
+                // a long history (hundreds of lines, some repeated, some long), walked far up and down
+                let n = 100 + rng.below(400);
+                history = (0..n)
+                    .map(|k| match k % 7 {
+                        0 => "reg".to_string(),
+                        1 => format!("print x{:04x}", k),
+                        2 => "step".to_string(),
+                        3 => format!("echo {}", "\u{e9}x".repeat((k % 40) as usize)),
+                        4 => history.first().cloned().unwrap_or_default(),
+                        5 => String::new(),
+                        _ => format!("move r{} #{}", k % 8, k),
+                    })
+                    .filter(|l| !l.is_empty() || rng.chance(1, 4))
+                    .collect();
+                for k in keys.iter_mut() {
+                    if rng.chance(1, 2) {
+                        *k = if rng.chance(3, 4) { K::Up } else { K::Down };
+                    }
+                }
+                out.class("long_history");
+            }
+            1 => {
+                // one line far longer than the editor's initial buffer (64 bytes), typed and then edited
+                let mut typed: Vec<K> = (0..(70 + rng.below(400))).map(|k| K::Ch(if k % 5 == 0 { '\u{e9}' } else { 'a' })).collect();
+                typed.extend(keys.iter().copied());
+                keys = typed;
+                out.class("long_line");
+            }
+            _ => {}
+        }
         let oc = check_sequence(&keys, &history);
         evals += 1;
         if let Some((key, what)) = &oc.violation {
